@@ -35,6 +35,8 @@ def run_variant(v, props, tier):
             open(p, "w").write(s)
         res = {}
         env = dict(os.environ, VERIF_NO_EVIDENCE="1", VERIF_OUT=d)
+        if v.get("expect") == [] and v["name"].startswith("refactor:"):
+            env["VERIF_STRICT_INVENTORY"] = "1"       # on a behaviour-preserving variant no obligation of the pinned tree may disappear
         if tier == "quick" and not os.environ.get("SELFTEST_SEPARATE"):
             # all properties in one process (sa/allprops.py: same rules, shared parse / call graph / templates)
             r = subprocess.run(["/venv/bin/python", "-B", "-m", "sa.allprops", d, ",".join(props)], capture_output=True, text=True, env=env, cwd=VERIF)
